@@ -435,3 +435,42 @@ def constructs_variant(body, adt_pat, variant):
             if c.get("variant") == variant and rx.search(c.get("adt", "")):
                 return True
     return False
+
+
+def live_across_yield(body, local):
+    """yield blocks at which `local` may still hold a value: reachable from a definition of the local without passing a
+    move-out or a Drop of it (block granularity)"""
+    def kills(bb):
+        t = body.term(bb)
+        if t[0] == "drop" and t[1] == [local]:
+            return True
+        txt_ops = []
+        for s in body.stmts(bb):
+            r = s[1]
+            from factlib import _ops_of_rvalue
+            txt_ops += [o for o in (_ops_of_rvalue(r) if r[0] != "callret" else []) if r[0] != "ref"]
+        if t[0] == "call":
+            txt_ops += list(t[2])
+        for o in txt_ops:
+            if o[0] == "m" and o[1] == [local]:
+                return True
+        return False
+    defs = {bb for bb, s in body.defs_of_local(local) if len(s[0]) == 1}
+    hits = set()
+    for a in defs:
+        seen = set()
+        if kills(a):
+            continue  # defined and consumed inside the same block (e.g. `x.await.unwrap()` temporaries)
+        work = list(body.succ(a))
+        # a definition by a call lives from the call's target on
+        while work:
+            x = work.pop()
+            if x in seen:
+                continue
+            seen.add(x)
+            if body.term(x)[0] == "yield":
+                hits.add(x)
+            if kills(x) or x in defs:
+                continue
+            work.extend(body.succ(x))
+    return sorted(hits)
